@@ -32,6 +32,16 @@ EXT_SINKS = {
 }
 
 
+# in-repo helpers that read/write `len` elements through bare pointers: qualified name -> [(ptr idx, len idx, mode)]
+INTERNAL_SINKS = {
+    "Tins::Crypto::xor_range": [(0, 3, "r"), (1, 3, "r"), (2, 3, "w")],
+}
+# external sinks whose length argument is in bits
+EXT_SINKS_BITS = {"AES_set_encrypt_key": [(0, 1, "r")], "AES_set_decrypt_key": [(0, 1, "r")]}
+# external functions that read/write a fixed number of bytes through a pointer argument
+EXT_FIXED = {"AES_encrypt": [(0, 16, "r"), (1, 16, "w")], "AES_decrypt": [(0, 16, "r"), (1, 16, "w")]}
+
+
 def tname(t):
     while t and t.get("k") in ("ref",):
         t = t.get("to")
@@ -74,6 +84,9 @@ PRE_ORDER = {
 # Class invariants: assumed on entry of every non-constructor member function, proved at every normal exit of
 # constructors and non-const member functions.  Each item: (text, [(sign, ("fld"|"size", name)), ...]) meaning sum >= 0
 CLASS_INVARIANTS = {
+    "Tins::Crypto::WPA2::SessionKeys": [
+        ("ptk_.size() >= 80 (PTK_SIZE)", [(1, ("call", "ptk_.size()")), (-80, ("one",))]),
+    ],
     "Tins::DNS": [
         ("answers_idx_ <= authority_idx_", [(1, ("fld", "authority_idx_")), (-1, ("fld", "answers_idx_"))]),
         ("authority_idx_ <= additional_idx_", [(1, ("fld", "additional_idx_")), (-1, ("fld", "authority_idx_"))]),
@@ -314,7 +327,7 @@ class FnBounds(object):
     def inv_lin(self, terms):
         L = const(0)
         for sg, a in terms:
-            L = L + atom(a).scale(sg)
+            L = L + (const(sg) if a == ("one",) else atom(a).scale(sg))
         return L
 
     def check_exit_invariants(self, st, node):
@@ -1405,6 +1418,13 @@ class FnBounds(object):
                             return
                 self.record(node, kind, text, "undecided", "extent of %s unknown" % atom_str(B))
                 return
+            nonlin = lambda L_: L_.mentions(lambda a: a[0] == "phi") and \
+                any(F.mentions(lambda a: a[0] == "ld" and len(a) > 2 and a[2] == "bits") for F in st.facts)
+            if (not ok_hi or not ok_lo or not ok_n) and (nonlin(off) or nonlin(n)):
+                self.record(node, kind, text, "undecided",
+                            "loop-carried offset whose bound comes from a division/modulo (%s bytes at offset %s): outside the "
+                            "linear language" % (n, off))
+                return
             why = []
             if not ok_hi:
                 why.append("cannot show %s <= %s (bytes available) from the guards in force: {%s}" %
@@ -1436,7 +1456,24 @@ class FnBounds(object):
             # constructor initialiser of a scalar member: member == value
             fa = ("fld", self.init_member[n["id"]])
             t = facts.ty(f, n)
-            if is_int(t) or is_ptr(t) or k == "ImplicitValueInitExpr":
+            fake = {"id": n["id"], "k": "MemberExpr", "isfield": True, "member": self.init_member[n["id"]], "t": n.get("t"),
+                    "c": [{"id": -1, "k": "CXXThisExpr", "t": None}]}
+            if k in ("CXXConstructExpr",) and (facts.ty(f, n) or {}).get("k") == "rec" and self.vec_base(fake) is not None:
+                a_ = n.get("c", [])
+                sz = ("call", self.init_member[n["id"]] + ".size()")
+                N = None
+                if len(a_) >= 1 and is_int(facts.ty(f, strip(a_[0]))):
+                    N = self.lin(a_[0], st, pos)
+                elif len(a_) == 1:
+                    src = self.vec_base(strip(a_[0]))
+                    if src is not None:
+                        N = atom(("call", src[1] + ".size()"))
+                elif len(a_) == 0:
+                    N = const(0)
+                self.kill_atoms(st, lambda a: a == sz)
+                if N is not None:
+                    st.facts = frozenset(set(st.facts) | set([atom(sz) - N, N - atom(sz)]))
+            elif is_int(t) or is_ptr(t) or k == "ImplicitValueInitExpr":
                 R = const(0) if k == "ImplicitValueInitExpr" else self.lin(n, st, pos)
                 self.kill_atoms(st, lambda a: a == fa)
                 if R is not None:
@@ -1943,6 +1980,30 @@ class FnBounds(object):
                     P, L = self.lin(args[pi], st, pos), self.lin(args[li], st, pos)
                     if P is not None and any(a in self.extent for a in P.atoms()):
                         self.oblige(args[pi], "sink:" + cname, P, L, st, "%s(%s, %s)" % (cname, facts.expr_str(args[pi])[:40], facts.expr_str(args[li])[:40]))
+                    elif mode == "w" and L is not None:
+                        self.dest_capacity(n, args[pi], L, st)
+            return st
+        if n.get("ext") and cname in EXT_SINKS_BITS:
+            for pi, li, mode in EXT_SINKS_BITS[cname]:
+                P, L = self.lin(args[pi], st, pos), self.lin(args[li], st, pos)
+                if P is not None and L is not None and L.is_const() and any(a in self.extent for a in P.atoms()):
+                    self.oblige(args[pi], "sink:" + cname, P, const((L.k + 7) // 8), st,
+                                "%s(%s, %d bits)" % (cname, facts.expr_str(args[pi])[:40], L.k))
+            return st
+        if n.get("ext") and cname in EXT_FIXED:
+            for pi, nb, mode in EXT_FIXED[cname]:
+                if pi < len(args):
+                    P = self.lin(args[pi], st, pos)
+                    if P is not None and any(a in self.extent for a in P.atoms()):
+                        self.oblige(args[pi], "sink:" + cname, P, const(nb), st, "%s(%s): %d bytes" % (cname, facts.expr_str(args[pi])[:40], nb))
+            return st
+        gq = self.db.fn(callee)["qual"] if callee and self.db.fn(callee) is not None else None
+        if gq in INTERNAL_SINKS:
+            for pi, li, mode in INTERNAL_SINKS[gq]:
+                if pi < len(args) and li < len(args):
+                    P, L = self.lin(args[pi], st, pos), self.lin(args[li], st, pos)
+                    if P is not None and any(a in self.extent for a in P.atoms()):
+                        self.oblige(args[pi], "sink:" + cname, P, L, st, "%s(%s, %s)" % (cname, facts.expr_str(args[pi])[:40], facts.expr_str(args[li])[:30]))
                     elif mode == "w" and L is not None:
                         self.dest_capacity(n, args[pi], L, st)
             return st
